@@ -2,6 +2,7 @@ package main
 
 import (
 	"fmt"
+	"os"
 	"sort"
 	"strconv"
 	"strings"
@@ -81,6 +82,34 @@ func (cs ConsSchema) wire() string {
 		uq = strings.Join(p, ",")
 	}
 	return fmt.Sprintf("yreset %s %s %s %s", ints(cs.NotNull), ck, uq, ints(cs.FKs))
+}
+
+// withNotNull returns the schema with the NOT NULL columns currently declared on main's table c
+// (ALTERs on a branch reach main through merges).
+func (cs ConsSchema) withNotNull(cols []int) ConsSchema {
+	c := cs
+	c.NotNull = cols
+	return c
+}
+
+// notNullCols reads the NOT NULL value columns of table c in the working set (asof = "") or at HEAD
+// from SHOW CREATE TABLE.
+func notNullCols(obs *sqleng.Session, asof string) []int {
+	r := obs.Exec("SHOW CREATE TABLE c" + asof)
+	var out []int
+	if r.Err != nil || len(r.Rows) == 0 || len(r.Rows[0]) < 2 {
+		return out
+	}
+	ddl, err := strconv.Unquote(r.Rows[0][1])
+	if err != nil {
+		ddl = r.Rows[0][1]
+	}
+	for i := 0; i < 3; i++ {
+		if strings.Contains(ddl, fmt.Sprintf("`c%d` int NOT NULL", i)) {
+			out = append(out, i)
+		}
+	}
+	return out
 }
 
 // violating: independent evaluation of the declared constraints over dumps of p and c — the child
@@ -195,6 +224,10 @@ func consWitnesses() []*Program {
 		mk(ConsSchema{Uniques: [][]int{{1}}}, x(2, "CALL dolt_checkout('br')"), x(2, "INSERT INTO c VALUES (1,0,7,0)"), x(2, "CALL dolt_commit('-Am','b')"), x(2, "CALL dolt_checkout('main')"), x(2, "INSERT INTO c VALUES (2,0,7,0)"), x(2, "CALL dolt_commit('-Am','m')"), x(2, "CALL dolt_merge('br')")),
 		// branch merge: child added on one branch, parent deleted on the other
 		mk(ConsSchema{FKs: []int{2}}, x(2, "INSERT INTO p VALUES (1,1)"), x(2, "CALL dolt_commit('-Am','p')"), x(2, "CALL dolt_checkout('br')"), x(2, "CALL dolt_merge('main')"), x(2, "INSERT INTO c VALUES (1,0,0,1)"), x(2, "CALL dolt_commit('-Am','b')"), x(2, "CALL dolt_checkout('main')"), x(2, "DELETE FROM p WHERE pk=1"), x(2, "CALL dolt_commit('-Am','m')"), x(2, "CALL dolt_merge('br')")),
+		// schema-changing merge: br makes c1 NOT NULL, main inserts a row with c1 NULL
+		mk(ConsSchema{}, x(2, "INSERT INTO c VALUES (1,0,1,0)"), x(2, "CALL dolt_commit('-Am','base')"), x(2, "CALL dolt_checkout('br')"), x(2, "CALL dolt_merge('main')"), x(2, "ALTER TABLE c MODIFY c1 int NOT NULL"), x(2, "CALL dolt_commit('-Am','b')"), x(2, "CALL dolt_checkout('main')"), x(2, "INSERT INTO c VALUES (2,0,NULL,0)"), x(2, "CALL dolt_commit('-Am','m')"), x(2, "CALL dolt_merge('br')")),
+		// the other direction: main makes c1 NOT NULL, br inserts the NULL row, br is merged into main
+		mk(ConsSchema{}, x(2, "INSERT INTO c VALUES (1,0,1,0)"), x(2, "CALL dolt_commit('-Am','base')"), x(2, "CALL dolt_checkout('br')"), x(2, "CALL dolt_merge('main')"), x(2, "INSERT INTO c VALUES (2,0,NULL,0)"), x(2, "UPDATE c SET c1=NULL WHERE pk=1"), x(2, "CALL dolt_commit('-Am','b')"), x(2, "CALL dolt_checkout('main')"), x(2, "ALTER TABLE c MODIFY c1 int NOT NULL"), x(2, "CALL dolt_commit('-Am','m')"), x(2, "CALL dolt_merge('br')")),
 	}
 }
 
@@ -254,6 +287,14 @@ func genConsProgram(r *hx.Rng) *Program {
 		case x < 42:
 			p.Stmts = append(p.Stmts, XStmt{S: s, SQL: "CALL dolt_commit('-Am','c')"})
 			open[s] = false
+		case x < 46 && !open[0] && !open[1]:
+			// schema change on whatever branch session 2 is on: a column becomes NOT NULL / nullable again
+			col := r.Intn(3)
+			if r.Chance(2, 3) {
+				p.Stmts = append(p.Stmts, XStmt{S: 2, SQL: fmt.Sprintf("ALTER TABLE c MODIFY c%d int NOT NULL", col)})
+			} else {
+				p.Stmts = append(p.Stmts, XStmt{S: 2, SQL: fmt.Sprintf("ALTER TABLE c MODIFY c%d int", col)})
+			}
 		default:
 			ss := s
 			if onBr && r.Chance(1, 2) {
@@ -324,6 +365,11 @@ func (h *H) runCons(p *Program) {
 		if class != "ok" && class != "nothing-to-commit" {
 			nontrivial = true
 		}
+		if prop == "C24" && res.Err != nil && strings.Contains(strings.ToLower(res.Err.Error()), "panic") {
+			// a constraint violation produced by a merge has to be recorded (or the statement rejected with
+			// a constraint error), never end in an internal panic
+			rep.Violate("C24:statement-panicked:"+strings.ToLower(strings.Fields(st.SQL)[0]), fmt.Sprintf("stmt %d (session %d: %s) failed with an internal panic instead of recording/reporting the constraint violation: %v", idx, st.S, st.SQL, res.Err), p)
+		}
 		for _, asof := range []string{"", " AS OF 'HEAD'"} {
 			pt, err := tableOf(obs.Exec("SELECT * FROM p"+asof+" ORDER BY pk"), []bool{false})
 			if err != nil {
@@ -346,7 +392,21 @@ func (h *H) runCons(p *Program) {
 			}
 			rep.Hit("cons:roots-evaluated")
 			if prop == "C24" {
-				bad := cs.violating(pt, ct)
+				cur := cs.withNotNull(notNullCols(obs, asof))
+				if os.Getenv("CONSDEBUG") != "" {
+					fmt.Fprintf(os.Stderr, "DBG err=%v\n", res.Err)
+					fmt.Fprintf(os.Stderr, "DBG stmt %d s%d %q class=%s asof=%q notnull=%v p=%s c=%s recorded=%v\n", idx, st.S, st.SQL, class, asof, cur.NotNull, pt.Dump(), ct.Dump(), recorded)
+				}
+				bad := cur.violating(pt, ct)
+				// NOT NULL is also a storage invariant: no committed root may hold a NULL in a column its
+				// schema declares NOT NULL, recorded as a violation or not
+				if asof == "" {
+					for k, why := range bad {
+						if strings.HasPrefix(why, "NOT NULL") {
+							rep.Violate("C24:null-in-not-null-column", fmt.Sprintf("after stmt %d (session %d: %s) [class %s] the committed working set of main holds child row %d = %v with a NULL in a NOT NULL column (%s; recorded: %v)", idx, st.S, st.SQL, class, k, ct[k], why, recorded[k]), p)
+						}
+					}
+				}
 				if asof == "" {
 					// a session that did not ask for dolt_force_transaction_commit must never make the
 					// committed working set (more) invalid, recorded or not: its commit has to be rejected
